@@ -623,6 +623,10 @@ func runC13Close(c *Ctx, v int) {
 	if n := w.K.OpenCount(); n != open0 && kind != "adapter" {
 		c.Failf("close-did-not-release/"+kind, "a %s owned %d descriptors; after Close %d of them are still open", kind, mine, n-open0)
 	}
+	// a connection is dialled next - it gets the lowest number a just released - and a read is started on it which has
+	// to wait; the program keeps no reference to it (only the IO does, for as long as the read is registered)
+	var rdDone, wrDone int
+	wp, endB := c13Detached(e, false, true, false, false, &rdDone, &wrDone)
 	// other objects are created: they get the numbers a just released
 	var others []obj
 	var gens []int
@@ -654,6 +658,25 @@ func runC13Close(c *Ctx, v int) {
 			c.FailOrTolerate("foreign-close/"+kind, "object %d lost its descriptor %d to a repeated Close of a %s", i, o.fd, kind)
 		}
 		_ = o.close()
+	}
+	// the repeated Close must not have released anything of the connection whose read is in flight either: not its
+	// descriptor (census above), and not the registration that keeps it alive and gets its completion delivered
+	runtime.GC()
+	runtime.GC()
+	shimnet.CollectGarbage()
+	if wp.Value() == nil {
+		c.FailOrTolerate("owner-collected-while-operation-in-flight/after-repeated-close-of-a-"+kind, "a %s was closed, a connection was dialled (it got a released descriptor number) and a read started on it with no reference kept; after the %s was closed again and a garbage collection the read's completion callback is gone although the read is still in flight", kind, kind)
+	}
+	endB.ActorSend([]byte("hello"))
+	for i := 0; i < 200 && rdDone == 0; i++ {
+		w.Drain(1_000_000_000)
+		w.Advance(2_000_000)
+		if _, err := ioc.PollOne(); err != nil && err != sonicerrors.ErrTimeout {
+			c.Failf("poll-error", "PollOne: %v", err)
+		}
+	}
+	if rdDone != 1 {
+		c.Failf("completion-not-delivered/read-after-repeated-close-of-a-"+kind, "a read in flight on a connection that got the descriptor number of a closed %s completed %d times after the %s was closed again", kind, rdDone, kind)
 	}
 }
 
